@@ -147,12 +147,14 @@ def pdsEntriesOf (m : Dict) : List (Text × Val) :=
   m.filterMap (fun kv => match kv.1 with | .pds t => some (t, kv.2) | _ => none)
 
 /-- `_pds_to_de`: sorted keys, `int(key[3:])`, `len(value)`, greedy packing -/
+def pdsEntryFor (k : IntClasses) (kv : Text × Val) : Outcome Text :=
+  match pyInt k kv.1, kv.2 with
+  | some tag, .str v => .ok (pdsEntry tag v)
+  | none, _ => .escape .valueError          -- int(key[3:])
+  | some _, _ => .escape .typeError         -- len() of a non-string value
+
 def pdsToDe (k : IntClasses) (m : Dict) : Outcome (List Text) :=
-  (Outcome.mapO (fun (kv : Text × Val) =>
-    match pyInt k kv.1, kv.2 with
-    | some tag, .str v => (.ok (pdsEntry tag v) : Outcome Text)
-    | none, _ => .escape .valueError
-    | some _, _ => .escape .typeError) (sortPds (pdsEntriesOf m))).bind (fun es => .ok (pdsPack es []))
+  (Outcome.mapO (pdsEntryFor k) (sortPds (pdsEntriesOf m))).bind (fun es => .ok (pdsPack es []))
 
 /-- `_pds_to_dict`: tag(4) length(3) value walk.  A malformed length is a ValueError, which the
     caller turns into the library error; a negative length is rejected the same way. -/
@@ -376,9 +378,16 @@ def encodeField (env : Env) (f : FieldCfg) (v : Val) : Outcome Bytes :=
       else (encodeText env (fmtInt f.prefixLen (Int.ofNat b.length))).bind (fun p => .ok (p ++ b))
     | _ => .escape .typeError)
 
+def insertNat (x : Nat) : List Nat → List Nat
+  | [] => [x]
+  | y :: ys => if y ≤ x then y :: insertNat x ys else x :: y :: ys
+
+/-- `sorted(...)` of a list of numbers (insertion sort: structural, so the kernel can evaluate it) -/
+def sortNat (l : List Nat) : List Nat := l.foldr insertNat []
+
 /-- PDS carrier elements in ascending order -/
 def pdsCarriers (cfg : Config) : List Nat :=
-  ((cfg.filter (fun e => e.2.proc == .pds)).map (·.1)).mergeSort (· ≤ ·)
+  sortNat ((cfg.filter (fun e => e.2.proc == .pds)).map (·.1))
 
 /-- assign the packed PDS strings to the carriers in ascending order (`pop()` from the reversed
     list); more strings than carriers is an IndexError -/
